@@ -284,6 +284,17 @@ func runC10(rc *RunCtx, redirects bool) {
 		u.User = url.UserPassword("urluser", "urlsecret-remote")
 		remoteURL = u.String()
 		sec.add("urlsecret-remote", "url", normOrigin(u.Scheme, u.Host))
+		// the LFS API may live somewhere else than the Git remote (lfs.url,
+		// remote.<name>.lfsurl, .lfsconfig): the remote's password is not for it
+		if k := t.Choose(4, "lfs-api-elsewhere"); k > 0 {
+			split := []string{"", "https://other.sim", "https://api.sim:8443", "http://api.sim"}[k]
+			if split != apiOrigin {
+				apiOrigin = split
+				srv.APIOrigin = split
+				key := []string{"lfs.url", "remote.origin.lfsurl"}[t.Choose(2, "lfs-url-key")]
+				extra[key] = split + "/repo.git/info/lfs"
+			}
+		}
 	case "url-lfs":
 		u, _ := url.Parse(apiOrigin + "/repo.git/info/lfs")
 		u.User = url.UserPassword("urluser", "urlsecret-lfs")
@@ -353,6 +364,15 @@ func runC10(rc *RunCtx, redirects bool) {
 				target = ""
 			default:
 				loc = target + rec.Path + q
+			}
+			// absolute Locations may spell the scheme in any case (RFC 3986 3.1)
+			if i := strings.Index(loc, "://"); i > 0 && target != "" {
+				switch t.Choose(4, "location-scheme-spelling") {
+				case 1:
+					loc = strings.ToUpper(loc[:i]) + loc[i:]
+				case 2:
+					loc = strings.ToUpper(loc[:1]) + loc[1:]
+				}
 			}
 			rr := &redirRec{ID: rSeq, From: origin, FromR: fromR, To: loc, Status: status}
 			if target != "" && strings.HasPrefix(origin, "https://") && strings.HasPrefix(target, "http://") {
